@@ -2,8 +2,9 @@
 component pairs Sbox/Sbox_inv, SubBytes/InvSubBytes, ShiftRows/InvShiftRows, MixColumns/InvMixColumns are mutual
 inverses on their entire domain.
 
-run_impl executes the chains on the real crysp.aes; check_impl is the round-trip predicate itself, evaluated on the
-implementation's outputs."""
+run_impl executes the chains on the real crysp.aes, ONE AES object per line for the whole chain (a cipher object is a
+function of (key, block): nothing a call leaves in the object may show in a later call); check_impl is the round-trip
+predicate itself and the repetition law, evaluated on the implementation's outputs."""
 from props.common import *
 from props.parts import aes_common as C
 from props.parts.aes_common import run_impl, shrink
@@ -11,7 +12,9 @@ from props.parts.aes_common import run_impl, shrink
 PREFIX = ('aes.',)
 LEAN_PROOFS = ['Proofs.C03_Aes']
 GEN_ITEMS = ['Aes']
-RULE = ('AES: op lines = round-trip chains enc;dec(enc);dec;enc(dec) on (key, block) — FIPS vectors, all-zero/all-one/identity, single-bit '
+RULE = ('AES: op lines = round-trip chains performed by ONE cipher object per line — aes.rt: enc;dec(enc);dec;enc(dec);enc again, aes.rtd: the '
+        'same started with dec (dec;enc(dec);enc;dec(enc);dec again), so that enc and dec are each the first call of a new object, each '
+        'follow the other, and are repeated — on (key, block) — FIPS vectors, all-zero/all-one/identity, single-bit '
         'keys and blocks, keys with zero/all-one words, seeded random per key size, wrong sizes — and f;finv(f);finv;f(finv) for the '
         'exposed component pairs on structured, byte-sweep (all 256 values) and random states; distinct lines; non-trivial = a value was returned')
 TRUSTED = ['Model.Aes represents byte-ring Poly objects by their coefficient lists (validated by the correspondence stream)']
@@ -21,17 +24,20 @@ ASSUMPTIONS = ['AES keys, blocks and states are passed as bytes objects', 'pytho
 def check_impl(line, res):
     t = line.split(); op, a = t[0], t[1:]
     bad = lambda why: '%s: %s' % (op, why)
-    if op == 'aes.rt':
+    if op in ('aes.rt', 'aes.rtd'):
         k, b = unhx(a[0]), unhx(a[1])
         parts = res.split(';')
-        if len(parts) != 4: return bad('malformed result')
-        e, de, d, ed = parts
+        if len(parts) != 5: return bad('malformed result')
+        e, de, d, ed, again = parts
         if len(k) not in C.KEYLENS or len(b) != 16:
             return None if (e == 'ERR' and d == 'ERR') else bad('a %d-byte key with a %d-byte block must be rejected' % (len(k), len(b)))
         if 'ERR' in parts: return bad('unexpected exception')
         if len(unhx(e)) != len(b) or len(unhx(d)) != len(b): return bad('result does not have the block length')
-        if de != hx(b): return bad('dec(enc(B)) = %s' % de)
-        if ed != hx(b): return bad('enc(dec(B)) = %s' % ed)
+        if de != hx(b): return bad('dec(enc(B)) = %s on one object' % de)
+        if ed != hx(b): return bad('enc(dec(B)) = %s on one object' % ed)
+        # a function of (key, block): the same call later on the same object gives the same value
+        if op == 'aes.rt' and again != e: return bad('enc(B) = %s at first, %s after dec() calls on the same object' % (e, again))
+        if op == 'aes.rtd' and again != d: return bad('dec(B) = %s at first, %s after enc() calls on the same object' % (d, again))
         return None
     if op == 'aes.rtc':
         s = unhx(a[1])
@@ -51,13 +57,17 @@ def cases(tier, rng):
     if tier == 'search':
         while True:
             n = rng.choice(C.KEYLENS)
-            yield 'aes.rt %s %s' % (hx(C.rb(rng, n)), hx(C.rb(rng, 16))), 'search'
+            yield '%s %s %s' % (rng.choice(('aes.rt', 'aes.rtd')), hx(C.rb(rng, n)), hx(C.rb(rng, 16))), 'search'
             yield 'aes.rtc %s %s' % (rng.choice(sorted(C.PAIRS)), hx(C.rb(rng, 16))), 'search'
         return
     for k, b, tag in C.cipher_cases(('rt',), tier, rng):
         yield 'aes.rt %s %s' % (hx(k), hx(b)), 'aes.rt/' + tag
+        # the same chain started with dec() on a new object; quick tier: not on the single-bit sweeps
+        if tier != 'quick' or not tag.startswith('single-bit'):
+            yield 'aes.rtd %s %s' % (hx(k), hx(b)), 'aes.rtd/' + tag
     for k, b, tag in C.size_cases(rng):
         yield 'aes.rt %s %s' % (hx(k), hx(b)), 'aes.rt/' + tag
+        yield 'aes.rtd %s %s' % (hx(k), hx(b)), 'aes.rtd/' + tag
     for s, tag in C.states(tier, rng):
         for p in sorted(C.PAIRS): yield 'aes.rtc %s %s' % (p, hx(s)), 'aes.rtc/' + tag
     allb = bytes(range(256))
